@@ -93,6 +93,9 @@ pub struct Seed {
     pub parts: Vec<Part>,
     /// wall-clock offset (ms) of "now" relative to BASE (lets stored attempts look old)
     pub wall_offset_ms: u64,
+    /// the wall clock was stepped back by this much (ms) between the run that wrote the history and this one
+    /// (stored attempts then carry a time that lies in the future)
+    pub wall_back_ms: u64,
 }
 
 #[derive(Clone, Debug)]
@@ -1908,7 +1911,7 @@ impl Model for W {
     fn new(cfg: &Arc<WCfg>) -> Self {
         sched::take_panics();
         sched::own_select();
-        crate::clock::enable(crate::clock::BASE_SECS * 1_000_000_000 + cfg.seed.wall_offset_ms * 1_000_000);
+        crate::clock::enable(crate::clock::BASE_SECS * 1_000_000_000 + cfg.seed.wall_offset_ms * 1_000_000 - cfg.seed.wall_back_ms * 1_000_000);
         let mut sim = Sim::new(common::local_pubkey().to_string());
         sim.height = cfg.start_height;
         for (h, p) in &cfg.preimages {
